@@ -23,7 +23,7 @@ from harness import core, stubs
 from harness.cones import EXACT_CONES
 
 TITLE = "elimination step (discarding) of all PAC algorithms vs Lean model"
-RULE = ("stream 1: (algorithm class, cone, n ≤ 7 designs, index sets S/P/U in a chosen iteration order, "
+RULE = ("stream 1: (algorithm class, cone, n ≤ 7 (thorough: 10) designs, index sets S/P/U in a chosen iteration order, "
         "Boolean tables dom/cov/pess over ordered design pairs drawn from named shapes: random densities, "
         "empty, full, diagonal-only, chain, antisymmetric, witnesses-only-in-U / only-outside-the-pessimistic-set, "
         "single-design S, overlapping S/P); Auer: dyadic centres and per-design width rows differing ≥ 2×. "
@@ -68,6 +68,17 @@ class ShuffledSet(set):
     def remove(self, x):
         set.remove(self, x)
         self._order = [y for y in self._order if y != x]
+
+
+def viol(ctx, key, what, case, kind="R", detail=None):
+    """`ctx.violation` with a per-key cap per worker process: `core.Ctx` keeps the first 20 violation records,
+    and a genuine defect that fires hundreds of times (D2) must not crowd a different key out of that list."""
+    seen = ctx.__dict__.setdefault("_c0203_keys", {})
+    seen[key] = seen.get(key, 0) + 1
+    if seen[key] <= 2:
+        ctx.violation(key, what, case, kind=kind, detail=detail)
+    else:
+        ctx.count(f"repeat[{kind}]:{key}")
 
 
 def bits(table) -> str:
@@ -151,7 +162,7 @@ def sset(s):
 def report_oracle_problems(ctx, orc, case, where):
     if orc.problems:
         kind = "slack" if any("slack" in p for p in orc.problems) else "args"
-        ctx.violation(f"oracle-{kind}:{case['alg']}:{where}",
+        viol(ctx, f"oracle-{kind}:{case['alg']}:{where}",
                       f"{case['alg']}.{where}: geometry predicate called irregularly: {orc.problems[0]}",
                       case, kind="F", detail={"problems": orc.problems[:5]})
         return True
@@ -173,10 +184,10 @@ def rand_table(rng, n, p):
     return [[rng.random() < p for _ in range(n)] for _ in range(n)]
 
 
-def gen_table_case(rng, alg=None):
+def gen_table_case(rng, alg=None, nmax=7):
     alg = alg or rng.choice(TABLE_ALGS)
     shape = rng.choice(TABLE_SHAPES)
-    n = rng.randint(1, 7)
+    n = rng.randint(1, nmax)
     if alg == "EpsilonPAL":
         cone = rng.choice(["orthant2", "orthant3"])
     else:
@@ -354,6 +365,13 @@ def gen_run_case(rng, alg=None):
                      "mean_err": [[core.dyadic(rng, -2, 2, 3) for _ in range(m)] for _ in range(n)]})
         if alg == "VOGP_AD":
             case.update({"max_depth": rng.choice([1, 2, 2]), "rounds": rng.randint(2, 6)})
+        if rng.random() < 0.25 and not (alg == "VOGP_AD" and m != 2):
+            # (VOGP_AD with more objectives than the 2 input dimensions crashes in calculate_design_vh, which
+            #  indexes the per-input lengthscale vector by objective — outside this property, see report)
+            # real gpytorch posterior (fixed hyper-parameters, no training) instead of a scripted one
+            case.update({"model": "fixed", "rounds": rng.randint(3, 6),
+                         "conf": rng.choice([64, 256, 1024] if alg.startswith("PaVeBaGP") else [16, 64, 256]
+                                            if alg.startswith("PaVeBaPartial") else [8, 32, 128])})
     return case
 
 
@@ -368,8 +386,9 @@ def gen(ctx):
             yield gen_run_case(rng, alg)
     for _ in range(ctx.n(150, 6000)):
         yield gen_auer_case(rng)
+    nmax = 7 if ctx.tier == "quick" else 10
     for _ in range(ctx.n(400, 20000)):
-        yield gen_table_case(rng)
+        yield gen_table_case(rng, nmax=nmax)
     for _ in range(ctx.n(30, 1000)):
         yield gen_run_case(rng)
 
@@ -397,7 +416,7 @@ def run_table(ctx, case, prop):
             report_oracle_problems(ctx, orc, case, method)
             return orc, e, None
         except Exception as e:
-            ctx.violation(f"crash:{name}.{method}:{core.exc_key(e)}", f"{name}.{method}() raised {type(e).__name__}: {e}",
+            viol(ctx, f"crash:{name}.{method}:{core.exc_key(e)}", f"{name}.{method}() raised {type(e).__name__}: {e}",
                           case, kind="F")
             return orc, e, None
         report_oracle_problems(ctx, orc, case, method)
@@ -412,7 +431,7 @@ def run_table(ctx, case, prop):
             if err is None:
                 model = core.parse_nats(ctx.ask("pess", Sa, Pa, ns, case["pess"]))
                 if sset(pess) != model:
-                    ctx.violation(f"pessimistic-set:{name}", f"{name}.compute_pessimistic_set differs from the model",
+                    viol(ctx, f"pessimistic-set:{name}", f"{name}.compute_pessimistic_set differs from the model",
                                   case, kind="F", detail={"impl": sset(pess), "model": model})
         # ---- (b) discarding
         install_sets(alg, case)
@@ -426,11 +445,11 @@ def run_table(ctx, case, prop):
         else:
             model = core.parse_nats(ctx.ask("paveba", Sa, Ua, ns, case["dom"]))
         if S1 != model:
-            ctx.violation(f"discard:{name}", f"{name}.discarding(): resulting S differs from the model "
+            viol(ctx, f"discard:{name}", f"{name}.discarding(): resulting S differs from the model "
                           "(certificate: witness set / argument order / self-comparison guard)", case, kind="F",
                           detail={"impl": S1, "model": model})
         if sset(alg.P) != P0 or (hasattr(alg, "U") and sset(alg.U) != U0):
-            ctx.violation(f"discard-touches-PU:{name}", f"{name}.discarding() changed P or U", case, kind="F")
+            viol(ctx, f"discard-touches-PU:{name}", f"{name}.discarding() changed P or U", case, kind="F")
         # ---- (c) whole decision round: S − (S' ∪ P')
         nxt = "epsiloncovering" if pess_family else "pareto_updating"
         orc, err, _ = step(nxt)
@@ -447,7 +466,7 @@ def run_table(ctx, case, prop):
                 ref = core.parse_nats(ctx.ask("elim_paveba", Sa, Pa, Ua, ns, case["dom"], case["cov"]))
                 tag = "elim"
             if elim != ref:
-                ctx.violation(f"{tag}:{name}", f"{name}: S_before − (S_after ∪ P_after) differs from the certified set",
+                viol(ctx, f"{tag}:{name}", f"{name}: S_before − (S_after ∪ P_after) differs from the certified set",
                               case, kind="F", detail={"impl": elim, "model": ref})
             nontrivial = 0 < len(ref) < len(S0)
             ctx.count("eliminated_%s" % ("none" if not ref else "all" if len(ref) == len(S0) else "some"))
@@ -466,7 +485,7 @@ def run_table(ctx, case, prop):
             mS, mP, me = ans.split(";")
             mS, mP = core.parse_nats(mS), core.parse_nats(mP)
             if bool(alg.enable_epsilon_covering) != (me == "1"):
-                ctx.violation("ad-latch", "VOGP_AD.enable_epsilon_covering differs from the model's gate/latch",
+                viol(ctx, "ad-latch", "VOGP_AD.enable_epsilon_covering differs from the model's gate/latch",
                               case, kind="F", detail={"impl": bool(alg.enable_epsilon_covering), "model": me})
             ctx.count("ad_gate_%s" % ("open" if me == "1" else "closed"))
         elif pess_family:
@@ -474,11 +493,11 @@ def run_table(ctx, case, prop):
         else:
             mS, mP = parse_sets(ctx.ask("pareto", Sa, Pa, Ua, ns, case["cov"]))
         if (S1, P1) != (mS, mP):
-            ctx.violation(f"pareto:{name}", f"{name}.{nxt}(): resulting (S, P) differ from the model "
+            viol(ctx, f"pareto:{name}", f"{name}.{nxt}(): resulting (S, P) differ from the model "
                           "(P-entry: witness set / argument order / slack / guard)", case, kind="F",
                           detail={"impl": [S1, P1], "model": [mS, mP]})
         if not set(P0) <= set(P1):
-            ctx.violation(f"P-shrinks:{name}", f"{name}.{nxt}() removed a member of P", case, kind="R")
+            viol(ctx, f"P-shrinks:{name}", f"{name}.{nxt}() removed a member of P", case, kind="R")
         new = sorted(set(mP) - set(P0))
         nontrivial = 0 < len(new) < len(S0)
         ctx.count("entered_%s" % ("none" if not new else "all" if len(new) == len(S0) else "some"))
@@ -489,7 +508,7 @@ def run_table(ctx, case, prop):
                 U1 = sset(alg.U)
                 mU = core.parse_nats(ctx.ask("useful", core.nats(S1), core.nats(P1), ns, case["cov"]))
                 if U1 != mU:
-                    ctx.violation(f"useful:{name}", f"{name}.useful_updating(): U differs from "
+                    viol(ctx, f"useful:{name}", f"{name}.useful_updating(): U differs from "
                                   "{p ∈ P | some s ∈ S can be covered by p}", case, kind="F",
                                   detail={"impl": U1, "model": mU})
                 ctx.count("useful_%s" % ("empty" if not mU else "nonempty"))
@@ -508,7 +527,7 @@ def run_table(ctx, case, prop):
             else:
                 ref = parse_sets(ctx.ask("round", Sa, Pa, Ua, ns, case["dom"], case["cov"]))
             if got != ref:
-                ctx.violation(f"round:{name}", f"{name}: sets after discarding + pareto update (+ useful update) "
+                viol(ctx, f"round:{name}", f"{name}: sets after discarding + pareto update (+ useful update) "
                               "differ from the model", case, kind="F", detail={"impl": got, "model": ref})
     ctx.case_done(case, nontrivial, canon=[name, S0, P0, U0, case["dom"], case["cov"], case.get("pess"),
                                            case.get("depths"), case.get("enabled")])
@@ -538,7 +557,7 @@ def install_auer(alg, case, S_order):
         r.upper = np.array(c, dtype=float) + 0.25
     alg.S = ShuffledSet(S_order)
     alg.P = ShuffledSet(case["P"])
-    alg.beta_t = np.array([case["widths"][i] for i in S_order], dtype=float).reshape(len(S_order), case["m"])
+    stubs.auer_set_widths(alg, S_order, [case["widths"][i] for i in S_order])
 
 
 def run_auer(ctx, case, prop):
@@ -552,7 +571,7 @@ def run_auer(ctx, case, prop):
     try:
         alg.discarding()
     except Exception as e:
-        ctx.violation("crash:Auer.discarding:" + core.exc_key(e), f"Auer.discarding() raised {type(e).__name__}: {e}", case)
+        viol(ctx, "crash:Auer.discarding:" + core.exc_key(e), f"Auer.discarding() raised {type(e).__name__}: {e}", case)
         ctx.case_done(case, False)
         return
     S1_order = list(alg.S)
@@ -562,24 +581,21 @@ def run_auer(ctx, case, prop):
         mS1 = core.parse_nats(ctx.ask("auer", core.nats(S0), C, Wd))
         lit = core.parse_nats(ctx.ask("auerpos", core.nats(S0), C, rows0))
         if S1 != mS1:
-            ctx.violation("auer-discard", "Auer.discarding(): a design is discarded without / kept despite "
+            viol(ctx, "auer-discard", "Auer.discarding(): a design is discarded without / kept despite "
                           "∃ j ∈ S∖{i}: ∀d m(c_i,c_j) > β_i^d + β_j^d (own widths)", case, kind="R",
                           detail={"impl": S1, "model": mS1, "literal": lit})
-        if lit != S1:
-            ctx.violation("auer-discard-literal", "Auer.discarding(): differs from the literal positional model",
-                          case, kind="F", detail={"impl": S1, "literal": lit})
         # whole round elimination set, own widths
         try:
             alg.pareto_updating()
         except Exception as e:
-            ctx.violation("crash:Auer.pareto_updating:" + core.exc_key(e),
+            viol(ctx, "crash:Auer.pareto_updating:" + core.exc_key(e),
                           f"Auer.pareto_updating() raised {type(e).__name__}: {e}", case)
             ctx.case_done(case, False)
             return
         elim = sorted(set(S0) - set(alg.S) - set(alg.P))
         ref = core.parse_nats(ctx.ask("elim_auer", core.q(eps), core.nats(S0), core.nats(P0), C, Wd))
         if elim != ref:
-            ctx.violation("auer-elim", "Auer: S_before − (S_after ∪ P_after) differs from the certified set", case,
+            viol(ctx, "auer-elim", "Auer: S_before − (S_after ∪ P_after) differs from the certified set", case,
                           kind="R", detail={"impl": elim, "model": ref})
         nontrivial = 0 < len(ref) < len(S0)
         ctx.count("eliminated_%s" % ("none" if not ref else "all" if len(ref) == len(S0) else "some"))
@@ -590,7 +606,7 @@ def run_auer(ctx, case, prop):
     try:
         alg.pareto_updating()
     except Exception as e:
-        ctx.violation("crash:Auer.pareto_updating:" + core.exc_key(e),
+        viol(ctx, "crash:Auer.pareto_updating:" + core.exc_key(e),
                       f"Auer.pareto_updating() raised {type(e).__name__}: {e}", case)
         ctx.case_done(case, False)
         return
@@ -602,21 +618,20 @@ def run_auer(ctx, case, prop):
     ctx.count("auer_positions_%s" % ("shifted" if shifted else "aligned"))
     if got != design:
         if got == literal:
-            ctx.violation("auer-width-by-position",
+            viol(ctx, "auer-width-by-position",
                           "Auer.pareto_updating(): after discarding() shrank S, beta_t is indexed by the position in "
                           "the shrunk set, so designs are compared with other designs' confidence widths; "
                           "P-entry / hold-back differs from the rule evaluated with each design's own width",
                           case, kind="R", detail={"impl": got, "own-widths": design, "S_after_discard": S1_order,
                                                   "S_before": S0})
         else:
-            ctx.violation("auer-pareto", "Auer.pareto_updating(): (S, P) differ from the two-stage rule "
+            viol(ctx, "auer-pareto", "Auer.pareto_updating(): (S, P) differ from the two-stage rule "
                           "(P1: ∀j ¬(∀d M(c_i,c_j) < β_i+β_j); then ∀ j ∈ S∖P1 ¬(∀d M(c_j,c_i) ≤ β_i+β_j))",
                           case, kind="R", detail={"impl": got, "own-widths": design, "literal": literal})
     elif got != literal:
-        ctx.violation("auer-pareto-literal", "Auer.pareto_updating(): differs from the literal positional model",
-                      case, kind="F", detail={"impl": got, "literal": literal})
+        ctx.count("auer_own_width_not_positional")  # the code used own widths where positions had shifted
     if not set(P0) <= set(got[1]):
-        ctx.violation("P-shrinks:Auer", "Auer.pareto_updating() removed a member of P", case, kind="R")
+        viol(ctx, "P-shrinks:Auer", "Auer.pareto_updating() removed a member of P", case, kind="R")
     # (b) pareto_updating on a state whose rows ARE aligned with S (no shrink in between)
     install_auer(alg, case, S0)
     try:
@@ -624,14 +639,14 @@ def run_auer(ctx, case, prop):
         got2 = [sset(alg.S), sset(alg.P)]
         design2 = parse_sets(ctx.ask("auer", qe, core.nats(S0), core.nats(P0), C, Wd))
         if got2 != design2:
-            ctx.violation("auer-pareto", "Auer.pareto_updating() on aligned widths differs from the two-stage rule",
+            viol(ctx, "auer-pareto", "Auer.pareto_updating() on aligned widths differs from the two-stage rule",
                           case, kind="R", detail={"impl": got2, "own-widths": design2})
         new = sorted(set(design2[1]) - set(P0))
         nontrivial = 0 < len(new) < len(S0)
         ctx.count("entered_%s" % ("none" if not new else "all" if len(new) == len(S0) else "some"))
         ctx.count("auer_heldback_%s" % ("yes" if len(design2[0]) and len(new) < len(S0) else "no"))
     except Exception as e:
-        ctx.violation("crash:Auer.pareto_updating:" + core.exc_key(e),
+        viol(ctx, "crash:Auer.pareto_updating:" + core.exc_key(e),
                       f"Auer.pareto_updating() raised {type(e).__name__}: {e}", case)
     ctx.case_done(case, nontrivial, canon=["auer", case["S"], P0, case["centres"], case["widths"], eps])
 
@@ -670,6 +685,15 @@ def build_run_algorithm(case):
         a = stubs.build(name, in_data=X, out_data=Y, use_empirical_beta=True, **common)
         a.problem = HeteroProblem(a.problem, case["noise_scale"])
         return a
+    if case.get("model") == "fixed":
+        if name == "VOGP_AD":
+            c = Y[: 2] if len(Y) >= 2 else np.vstack([Y, Y])
+            pr = stubs.SyntheticContinuousProblem(
+                lambda x, c=c: x[:, :1] * c[0][None, :] + (1.0 - x[:, 1:2]) * c[1][None, :], 2, m,
+                case["noise_var"], depth_max=case["max_depth"])
+            return stubs.build(name, problem=pr, W=W, model="fixed", **common)
+        kw = {} if name == "EpsilonPAL" else {"W": W}
+        return stubs.build(name, in_data=X, out_data=Y, model="fixed", **kw, **common)
     V = np.array(case["vars"], dtype=float)
     covs = np.zeros((len(V), m, m))
     for i in range(len(V)):
@@ -746,6 +770,7 @@ PHASES = ("modeling", "discarding", "pareto_updating", "useful_updating", "epsil
 def instrument(alg):
     """wrap the phase methods of this instance; returns the trace list filled by run_one_step()"""
     trace = []
+    ph_state = {}
     for name in PHASES:
         if not hasattr(alg, name):
             continue
@@ -754,7 +779,10 @@ def instrument(alg):
         def wrapper(real=real, name=name):
             before = snapshot(alg)
             if name != "modeling" and hasattr(alg, "beta_t") and case_is_auer(alg):
-                before["beta_t"] = np.array(alg.beta_t, dtype=float).copy()
+                w = stubs.auer_get_widths(alg, ph_state.get("S_at_modeling", before["S"]))
+                before["widths"] = {i: [float(x) for x in r] for i, r in w.items()}
+            if name == "modeling":
+                ph_state["S_at_modeling"] = list(alg.S)
             real()
             trace.append((name, before, snapshot(alg)))
 
@@ -772,7 +800,7 @@ def run_real(ctx, case, prop):
     try:
         alg = build_run_algorithm(case)
     except Exception as e:
-        ctx.violation(f"crash:{name}.__init__:{core.exc_key(e)}", f"{name} constructor raised {type(e).__name__}: {e}", case)
+        viol(ctx, f"crash:{name}.__init__:{core.exc_key(e)}", f"{name} constructor raised {type(e).__name__}: {e}", case)
         ctx.case_done(case, False)
         return
     trace = instrument(alg)
@@ -799,7 +827,7 @@ def run_real(ctx, case, prop):
             else:
                 what = f"{name}.run_one_step() raised {type(e).__name__}: {e}"
                 key = f"crash:{name}:{key}"
-            ctx.violation(key, what, case, kind="R", detail={"round": rnd})
+            viol(ctx, key, what, case, kind="R", detail={"round": rnd})
             break
         ctx.count("rounds")
         nt = check_round(ctx, case, prop, alg, trace, rnd)
@@ -824,7 +852,7 @@ def check_round(ctx, case, prop, alg, trace, rnd):
         n, dom, cov, pess = geometry_tables(alg, active, False, want_cov=False)
         model = core.parse_nats(ctx.ask("paveba", core.nats(S0), core.nats(U0), str(n), bits(dom)))
         if sset(a_dis["S"]) != model:
-            ctx.violation(f"real-discard:{name}", f"{name}.discarding() on real regions differs from the model", case,
+            viol(ctx, f"real-discard:{name}", f"{name}.discarding() on real regions differs from the model", case,
                           kind="F", detail={"round": rnd, "impl": sset(a_dis["S"]), "model": model})
         return False
     _, b_par, a_par = ph[nxt]
@@ -845,12 +873,12 @@ def check_round(ctx, case, prop, alg, trace, rnd):
         cert = sorted(set(S0) - set(model))
         if elim != cert:
             detail.update({"eliminated": elim, "certified": cert})
-            ctx.violation(f"real-elim:{name}", f"{name}.run_one_step(): the designs that left S without entering P are "
+            viol(ctx, f"real-elim:{name}", f"{name}.run_one_step(): the designs that left S without entering P are "
                           "not exactly those with an elimination certificate on the displayed regions", case,
                           kind="R", detail=detail)
         elif S1 != model:
             detail.update({"impl": S1, "model": model})
-            ctx.violation(f"real-discard:{name}", f"{name}.discarding() on real regions differs from the model", case,
+            viol(ctx, f"real-discard:{name}", f"{name}.discarding() on real regions differs from the model", case,
                           kind="F", detail=detail)
         ctx.count("real_eliminated_%s" % ("none" if not cert else "all" if len(cert) == len(S0) else "some"))
         return 0 < len(cert) < len(S0)
@@ -862,7 +890,7 @@ def check_round(ctx, case, prop, alg, trace, rnd):
                       "1" if b_par["enabled"] else "0").split(";")
         mS, mP = core.parse_nats(ans[0]), core.parse_nats(ans[1])
         if a_par["enabled"] != (ans[2] == "1"):
-            ctx.violation("real-ad-latch", "VOGP_AD.enable_epsilon_covering differs from the model", case, kind="F",
+            viol(ctx, "real-ad-latch", "VOGP_AD.enable_epsilon_covering differs from the model", case, kind="F",
                           detail=detail)
     elif is_pess(name):
         mS, mP = parse_sets(ctx.ask("cover", S1a, Pa, ns, C))
@@ -870,10 +898,10 @@ def check_round(ctx, case, prop, alg, trace, rnd):
         mS, mP = parse_sets(ctx.ask("pareto", S1a, Pa, Ua, ns, C))
     if (S2, P2) != (mS, mP):
         detail.update({"impl": [S2, P2], "model": [mS, mP], "S_after_discard": b_par["S"]})
-        ctx.violation(f"real-pareto:{name}", f"{name}.run_one_step(): P did not gain exactly the candidates that no "
+        viol(ctx, f"real-pareto:{name}", f"{name}.run_one_step(): P did not gain exactly the candidates that no "
                       "other active displayed region can still ε-cover", case, kind="R", detail=detail)
     if not set(P0) <= set(P2):
-        ctx.violation(f"P-shrinks:{name}", f"{name}: a member left P", case, kind="R", detail=detail)
+        viol(ctx, f"P-shrinks:{name}", f"{name}: a member left P", case, kind="R", detail=detail)
     if "useful_updating" in ph:
         U2 = ph["useful_updating"][2]["U"]
         mU = core.parse_nats(ctx.ask("useful", core.nats(S2), core.nats(P2), ns, C))
@@ -891,7 +919,7 @@ def check_round(ctx, case, prop, alg, trace, rnd):
             mU = core.parse_nats(ctx.ask("useful", core.nats(S2), core.nats(P2), ns, bits(np.logical_or(cov, extra))))
         if U2 != mU:
             detail.update({"impl_U": U2, "model_U": mU})
-            ctx.violation(f"real-useful:{name}", f"{name}.run_one_step(): U is not exactly the members of P whose "
+            viol(ctx, f"real-useful:{name}", f"{name}.run_one_step(): U is not exactly the members of P whose "
                           "region can still ε-cover a remaining candidate", case, kind="R", detail=detail)
     new = sorted(set(mP) - set(P0))
     ctx.count("real_entered_%s" % ("none" if not new else "all" if len(new) == len(b_par["S"]) else "some"))
@@ -902,7 +930,8 @@ def check_round_auer(ctx, case, prop, alg, ph, rnd):
     _, b_dis, a_dis = ph["discarding"]
     _, b_par, a_par = ph["pareto_updating"]
     S0, P0 = b_dis["S"], b_dis["P"]
-    rows = np.array(b_dis["beta_t"], dtype=float)
+    own = b_dis["widths"]  # {design: own width row} as displayed when discarding() started
+    rows = np.array([own[i] for i in S0], dtype=float)  # the positional table of the original code
     n = alg.design_space.cardinality
     m = alg.m
     regs = alg.design_space.confidence_regions
@@ -928,7 +957,7 @@ def check_round_auer(ctx, case, prop, alg, ph, rnd):
     if prop == "C02":
         if S1 != verdicts[0]:
             detail.update({"impl": S1, "model": verdicts[0]})
-            ctx.violation("real-auer-discard", "Auer.run_one_step(): discarded set differs from the certificate with "
+            viol(ctx, "real-auer-discard", "Auer.run_one_step(): discarded set differs from the certificate with "
                           "each design's own width", case, kind="R", detail=detail)
         cert = sorted(set(S0) - set(verdicts[0]))
         ctx.count("real_eliminated_%s" % ("none" if not cert else "all" if len(cert) == len(S0) else "some"))
@@ -941,13 +970,13 @@ def check_round_auer(ctx, case, prop, alg, ph, rnd):
         literal = parse_sets(ctx.ask("auerpos", core.q(eps), core.nats(b_par["S"]), core.nats(P0), C, rows_q))
         detail.update({"impl": got, "own-widths": verdicts[0], "literal": literal})
         if got == literal:
-            ctx.violation("auer-width-by-position",
+            viol(ctx, "auer-width-by-position",
                           "Auer.pareto_updating(): after discarding() shrank S, beta_t is indexed by the position in the "
                           "shrunk set, so designs are compared with other designs' confidence widths; P-entry / "
                           "hold-back differs from the rule evaluated with each design's own width", case, kind="R",
                           detail=detail)
         else:
-            ctx.violation("real-auer-pareto", "Auer.run_one_step(): (S, P) after pareto_updating differ from the "
+            viol(ctx, "real-auer-pareto", "Auer.run_one_step(): (S, P) after pareto_updating differ from the "
                           "two-stage rule", case, kind="R", detail=detail)
     new = sorted(set(verdicts[0][1]) - set(P0))
     ctx.count("real_entered_%s" % ("none" if not new else "all" if len(new) == len(b_par["S"]) else "some"))
